@@ -225,12 +225,18 @@ abbrev Disk := Option Tree
 
 def find (t : Tree) (p : Path) : Option Obj := if p = [] then some .group else t.lookup p
 
-def setVals (t : Tree) (p : Path) (vals : List Int) : Tree :=
-  t.map fun (q, o) =>
-    if q = p then (match o with
-      | .ds s _ => (q, .ds s vals)
-      | .group => (q, .group))
-    else (q, o)
+/-- replace the elements of the dataset at `p` (the first entry with that path, which is the one `find` returns) -/
+def setVals : Tree → Path → List Int → Tree
+  | [], _, _ => []
+  | (q, o) :: rest, p, vals =>
+    if q = p then
+      (match o with
+        | .ds s _ => (q, .ds s vals)
+        | .group => (q, .group)) :: rest
+    else (q, o) :: setVals rest p vals
+
+/-- every dataset holds as many elements as its shape says -/
+def WF (t : Tree) : Prop := ∀ p s v, (p, Obj.ds s v) ∈ t → v.length = prodN s
 
 /-- components of an HDF5 path name (empty components and "." do not count) -/
 def splitPath (s : String) : Path := (s.splitOn "/").filter (fun c => c != "" && c != ".")
